@@ -6,6 +6,7 @@ every distinct timestamp in the equal-clock variants)."""
 
 import json
 import os
+import random
 import shutil
 
 import core
@@ -108,7 +109,8 @@ def judge_case(case, build, wd):
     shutil.rmtree(wd, ignore_errors=True)
     extra = histgen.mark_meta(marks)
     tracegen.write_trace(wd, desc, hist, require=histgen.require_of(enabled), extra_meta=extra,
-                         require_on=["all", "first", "last"][len(hist) % 3])
+                         require_on=["all", "first", "last"][len(hist) % 3],
+                         rank_on="one" if (len(hist) // 3) % 2 else "all", cpu_rng=random.Random(len(hist)))
     args = ["-l"] if case.get("lint") else []
     res = emu.emu(build, wd, args, timeout=60)
     if res.timeout:
